@@ -191,6 +191,10 @@ pub struct Phase {
     /// An operation of this phase that panics on a pool thread: the phase goes on once that thread is gone (nothing reaps it before the
     /// maximum is lowered, so the despawn finds a dead thread among those it retires)
     pub dying_op: Option<OpId>,
+    /// A second operation of this phase that panics on (another) pool thread
+    pub dying_op2: Option<OpId>,
+    /// Issued by a fresh caller thread once the dying threads are gone and while the `occupy` holds are still closed; must complete then
+    pub after_deaths: Vec<TAct>,
 }
 
 #[derive(Clone, Debug)]
